@@ -189,6 +189,9 @@ func redefinitionCases(c *run.Ctx) {
 		{"pick {select {0} 0}\nfirstlen {len {pick {0}}}\npick {select {0} 1}\nsecondlen {len {pick {0}}}-{pick {0}}\n", "{secondlen {0}}", "{len {select {0} 1}}-{select {0} 1}"},
 		{"w <{0}>\nuse1 {upper {w {0}}}\nw [{0}]\nuse2 {upper {w {0}}}{lower {w {1}}}\n", "{use2 {0} {1}}", "{upper [{0}]}{lower [{1}]}"},
 		{"t {sumi {0} 1}\na {multi {t {0}} 2}\nt {sumi {0} 10}\nb {multi {t {0}} 2}\n", "{b {1}}", "{multi {sumi {1} 10} 2}"},
+		// positions that no call can fill: a negative index reads as empty, in a function body as anywhere else
+		{"neg [{-1}|{0}|{7}]\n", "{neg {0}}", "[{-1}|{0}|]"},
+		{"neg2 {upper {-2}}{len {-1}}:{1}\nuse {neg2 {0} {1}}\n", "{use {0} {1}}", "{upper {-2}}{len {-1}}:{1}"},
 	}
 	ctxs := []Ctx{
 		{E: []string{"root", "7"}, K: map[string]string{}}, {E: []string{"Admin Root", "12"}, K: map[string]string{}},
